@@ -91,6 +91,10 @@ func vdrFsChecks(c *Ctx) {
 		base := filepath.Join(c.Scratch, fmt.Sprintf("lnk%d", i))
 		type ent struct{ path, link string }
 		var ents []ent
+		// the real ancestors of the tree
+		for p := filepath.Dir(base); p != "/"; p = filepath.Dir(p) {
+			ents = append(ents, ent{p, ""})
+		}
 		mk := func(p string) { os.MkdirAll(p, 0o755); ents = append(ents, ent{p, ""}) }
 		mk(base)
 		mk(base + "/d1")
@@ -135,6 +139,36 @@ func vdrFsChecks(c *Ctx) {
 			}
 			_ = j
 		}
+		// links to DIRECTORIES: paths through them have a linked parent component;
+		// and the whole tree reached through a linked directory (a pipestance below a symlinked path)
+		var through []string
+		if c.Rng.Intn(3) != 0 {
+			dl := base + "/dl"
+			target := []string{"d2", base + "/d2", "./d2/sub", "d1"}[c.Rng.Intn(4)]
+			if os.Symlink(target, dl) == nil {
+				ents = append(ents, ent{dl, target})
+				r.hist("symlink-to-directory")
+				through = append(through, dl+"/f2", dl+"/sub/f3", dl+"/f3", dl+"/f1", dl+"/sub")
+				for _, l := range links {
+					through = append(through, dl+"/"+filepath.Base(l))
+				}
+			}
+		}
+		if c.Rng.Intn(2) == 0 {
+			bl := base + "_via"
+			os.Remove(bl)
+			if os.Symlink(base, bl) == nil {
+				ents = append(ents, ent{bl, base})
+				r.hist("symlinked-root")
+				for _, f := range files {
+					through = append(through, bl+strings.TrimPrefix(f, base))
+				}
+				for _, l := range links {
+					through = append(through, bl+strings.TrimPrefix(l, base))
+				}
+				through = append(through, bl+"/dl/f2", bl+"/dl/sub/f3")
+			}
+		}
 		var enc []string
 		for _, e := range ents {
 			l := "~"
@@ -148,6 +182,7 @@ func vdrFsChecks(c *Ctx) {
 		for _, l := range links {
 			queries = append(queries, vdrUnclean(c, l, false, false))
 		}
+		queries = append(queries, through...)
 		for _, q := range queries {
 			got := core.VerifLogicalFileNames(q)
 			set := map[string]bool{}
